@@ -49,6 +49,31 @@ def fixture(spec):
     return _fix[spec]
 
 
+def shared_table_info(seed, le):
+    """Units of different version, offset size and address size that all use ONE abbreviation table (DWARF 7.5.3 allows it; LTO and dwz
+    output does it for units of equal parameters).  The declarations carry the forms whose width depends on the unit: ref_addr (address-
+    sized in v2, offset-sized from v3), addr, strp, sec_offset-like data.  What a declaration means is then a function of (declaration,
+    unit), and whatever the library remembers per declaration must not leak from one unit into the next."""
+    tab = [{'code': 1, 'tag': 0x11, 'children': True, 'attrs': [[0x03, 'DW_FORM_string', None], [0x11, 'DW_FORM_addr', None]]},
+           {'code': 2, 'tag': 0x24, 'children': False, 'attrs': [[0x03, 'DW_FORM_strp', None], [0x0b, 'DW_FORM_data1', None]]},
+           {'code': 3, 'tag': 0x34, 'children': False, 'attrs': [[0x49, 'DW_FORM_ref_addr', None], [0x11, 'DW_FORM_addr', None], [0x03, 'DW_FORM_strp', None], [0x3a, 'DW_FORM_data2', None]]},
+           {'code': 4, 'tag': 0x13, 'children': True, 'attrs': [[0x01, 'DW_FORM_ref4', None], [0x49, 'DW_FORM_ref_addr', None]]},
+           {'code': 5, 'tag': 0x0d, 'children': False, 'attrs': [[0x49, 'DW_FORM_ref4', None], [0x03, 'DW_FORM_string', None]]}]
+    params = [[(2, 32, 8), (4, 32, 8), (3, 64, 4)], [(4, 32, 8), (2, 32, 8), (2, 32, 4)], [(3, 64, 8), (2, 32, 8), (5, 32, 8)]][seed % 3]
+    units = []
+    for k, (ver, fmt, A) in enumerate(params):
+        M = (1 << (8 * A)) - 1
+        kids = [{'ab': 1, 'vals': [{'si': 0}, {'v': 4 + k}], 'kids': []},
+                {'ab': 2, 'vals': [{'tu': k + 1, 't': 1}, {'v': 0x1000 * (k + 1) & M}, {'si': 0, 'skip': k}, {'v': 0x100 + k}], 'kids': []},
+                {'ab': 3, 'vals': [{'sib': True}, {'tu': k + 2, 't': 2}], 'kids': [
+                    {'ab': 4, 'vals': [{'t': 1}, {'s': b'm%d' % k}], 'kids': []},
+                    {'ab': 2, 'vals': [{'tu': k, 't': 3}, {'v': M}, {'si': 0}, {'v': k}], 'kids': []}]},
+                {'ab': 2, 'vals': [{'tu': 0, 't': 0}, {'v': 1}, {'si': 0, 'skip': 3}, {'v': 0xffff}], 'kids': []}]
+        units.append({'version': ver, 'fmt': fmt, 'addr_size': A, 'ut': 1, 'abtab': 0, 'dwo_id': 0, 'sig': 0,
+                      'die': {'ab': 0, 'vals': [{'s': b'unit%d' % k}, {'v': 0x400000 & M}], 'kids': kids}})
+    return {'le': le, 'strs': [b'shared'], 'lstrs': [], 'abtabs': [tab], 'units': units, 'tunits': []}
+
+
 def make_generated(seed, kind, dupsig=False):
     from vf.checks import c04, c05, c06
     ch = RndChooser(770000 + seed)
@@ -69,6 +94,8 @@ def make_generated(seed, kind, dupsig=False):
             # two type units with the same signature (tolerated input: readelf dumps such files, debuggers complain and go on)
             info['tunits'][-1]['sig'] = info['tunits'][0]['sig']
         payload = dict(D.InfoWriter(info).sections)
+    elif kind == 'sharedab':
+        payload = dict(D.InfoWriter(shared_table_info(seed, le)).sections)
     else:
         line = c05.build_case(ch, 'quick')
         line['le'] = le
@@ -610,7 +637,7 @@ def small_alphabet(a):
 def bulk(ctx, tier, shard, nshards):
     """bounded-exhaustive exploration (every reachable abstract cache state x every operation)"""
     depth = DEPTH[tier]
-    fixtures = [('gen', 1, 'tree'), ('gen', 2, 'tree'), ('gen', 3, 'tree'), ('gen', 4, 'lines')] if tier == 'thorough' else [('gen', 1, 'tree'), ('gen', 4, 'lines')]
+    fixtures = [('gen', 1, 'tree'), ('gen', 2, 'tree'), ('gen', 3, 'tree'), ('gen', 4, 'lines'), ('gen', 1, 'sharedab'), ('gen', 2, 'sharedab')] if tier == 'thorough' else [('gen', 1, 'tree'), ('gen', 4, 'lines'), ('gen', 1, 'sharedab')]
     for fspec in fixtures:
         fx = fixture(fspec)
         a = discover(fx)
@@ -695,7 +722,7 @@ def corpus_fixtures():
 
 
 def strategy(tier):
-    fixtures = ([['gen', i, 'tree'] for i in range(1, 9)] + [['gen', i, 'lines'] for i in range(1, 5)] + [['gen', i, 'tree', 'badver'] for i in (1, 5, 7)] + [['gen', i, 'tree', 'dupsig'] for i in (1, 2, 8)] +
+    fixtures = ([['gen', i, 'tree'] for i in range(1, 9)] + [['gen', i, 'lines'] for i in range(1, 5)] + [['gen', i, 'sharedab'] for i in (1, 2, 3)] + [['gen', i, 'tree', 'badver'] for i in (1, 5, 7)] + [['gen', i, 'tree', 'dupsig'] for i in (1, 2, 8)] +
                 [['corpus', f] for f in corpus_fixtures()])
     query = st.builds(lambda k, x: [k, x], st.sampled_from(QUERY_OPS), st.integers(0, 500))
     repos = st.builds(lambda s, p: ['repos', s, p], st.integers(0, 7), st.integers(0, 100000))
@@ -709,7 +736,7 @@ def strategy(tier):
 def sweep(tier):
     """deterministic long histories: every query op once in forward and once in reverse order, with a reposition between any two"""
     cases = []
-    fixtures = [['gen', i, 'tree'] for i in range(1, 5)] + [['gen', 1, 'lines'], ['gen', 1, 'tree', 'badver'], ['gen', 2, 'tree', 'badver'], ['gen', 1, 'tree', 'dupsig'], ['gen', 8, 'tree', 'dupsig']] + [['corpus', f] for f in corpus_fixtures()]
+    fixtures = [['gen', i, 'tree'] for i in range(1, 5)] + [['gen', i, 'sharedab'] for i in (1, 2, 3)] + [['gen', 1, 'lines'], ['gen', 1, 'tree', 'badver'], ['gen', 2, 'tree', 'badver'], ['gen', 1, 'tree', 'dupsig'], ['gen', 8, 'tree', 'dupsig']] + [['corpus', f] for f in corpus_fixtures()]
     for f in fixtures:
         for order in (1, -1):
             ops = []
